@@ -4,3 +4,4 @@ Definition k_flow_read_asn1_set : pfun :=
      pf_body := [
     SReturn (PCall "_validate_tag/header,hint" [(PName "data"); (PName "tag"); (PCall "ASN1Tag.universal_tag" [(PName "TypeTagNumber.SET"); (PBool true)]); (PName "header"); (PName "hint")])
   ] |}.
+Definition k_flow_read_asn1_set_defaults : list (string * pexp) := [("tag", PNone); ("header", PNone); ("hint", PNone)].
